@@ -1469,5 +1469,57 @@ pub fn run(opts: &Opts) -> Report {
     rep.bump(&format!("items:total:{}", items.len()));
     rep.exhaustive = true;
     run_items(opts, &items, &mut rep);
+    equivalence_groups(opts, &mut rep);
     rep
+}
+
+/// Spellings that differ only in whitespace or in parentheses agreeing with the grammar must evaluate alike — also at
+/// the places where the compiler treats a token sequence specially (the smallest int literal behind a unary minus,
+/// runs of unary operators) and for operands on which the operator fails (model-free: real code against real code).
+fn equivalence_groups(opts: &Opts, rep: &mut Report) {
+    let binds: Vec<(String, CelValue)> = vec![
+        ("lo".into(), CelValue::Int(i64::MIN)),
+        ("u".into(), CelValue::UInt(5)),
+        ("s".into(), CelValue::String("abc".into())),
+        ("t".into(), CelValue::Bool(true)),
+        ("l".into(), CelValue::List(vec![CelValue::Int(1)])),
+        ("i".into(), CelValue::Int(19)),
+        ("d".into(), CelValue::Float(2.5)),
+        ("z".into(), CelValue::Int(0)),
+    ];
+    let mut groups: Vec<Vec<String>> = vec![
+        vec!["-9223372036854775808".into(), "- 9223372036854775808".into(), "-\n9223372036854775808".into(), "-\t 9223372036854775808".into(), "(-9223372036854775808)".into(), "( - 9223372036854775808 )".into()],
+        vec!["1 + -9223372036854775808".into(), "1 + - 9223372036854775808".into(), "1+-9223372036854775808".into(), "1 + (-9223372036854775808)".into()],
+        vec!["[-9223372036854775808][0]".into(), "[ - 9223372036854775808 ][ 0 ]".into()],
+        vec!["-9223372036854775808 == lo".into(), "- 9223372036854775808 == lo".into(), "(-9223372036854775808) == lo".into()],
+        vec!["-0x8000000000000000".into(), "- 0x8000000000000000".into()],
+    ];
+    for x in ["lo", "u", "s", "t", "l", "i", "d", "z", "5u", "'abc'", "true", "[1]", "19", "2.5", "(-9223372036854775807 - 1)"] {
+        groups.push(vec![format!("--{}", x), format!("-(-{})", x), format!("- -{}", x), format!("-( - {} )", x)]);
+        groups.push(vec![format!("---{}", x), format!("-(-(-{}))", x), format!("- - -{}", x)]);
+        groups.push(vec![format!("!!{}", x), format!("!(!{})", x), format!("! !{}", x)]);
+        groups.push(vec![format!("!!!{}", x), format!("!(!(!{}))", x)]);
+        groups.push(vec![format!("1 - --{}", x), format!("1 - (-(-{}))", x), format!("1 - -(-{})", x)]);
+    }
+    let mut pending: Vec<Pending> = Vec::new();
+    for g in groups.iter() {
+        let results: Vec<String> = g.iter().map(|src| crate::api::exec_src(src, &binds)).collect();
+        for (src, r) in g.iter().zip(results.iter()) {
+            rep.count(Some(src));
+            rep.bump("equivalent-spellings");
+            if r == "P" {
+                rep.oracle_fail(src, "P", "a value or an error", "compile/evaluate panicked");
+            }
+            if crate::wire::l1(r) != crate::wire::l1(&results[0]) {
+                rep.oracle_fail(&format!("{}   vs   {}", g[0].replace('\n', "\\n"), src.replace('\n', "\\n")), r, &results[0], "spellings that differ only in whitespace / agreeing parentheses evaluate differently");
+            }
+            pending.push(Pending {
+                request: format!("exec {} {}", crate::api::env_wire(&[], &binds, &[]), crate::wire::hex(src.as_bytes())),
+                implementation: format!("{} L:0", r),
+                level: 3,
+                input: src.clone(),
+            });
+        }
+    }
+    rep.compare_with_model(&opts.driver, &pending);
 }
